@@ -29,8 +29,9 @@ META = {
                   "and un-decodable payloads are outside the enumerated domain; `not` and case-insensitive literals cannot "
                   "be built through public fields; the ECU:APID:CTID front-end is observed through one `adlt convert` run per "
                   "filter (a seeded subset in quick). Bounded: combinations of more than 2 (3) criteria are only sampled. "
-                  "In the thorough tier at most 12 prediction-differing events per case and signature are handed to TLC "
-                  "(the rest is counted in drift_not_written_cap); quick hands over all of them.",
+                  "At most 12 prediction-differing events per case and signature and at most 150 differing cases per front-end "
+                  "family are handed to TLC (the rest is counted in drift_not_written_cap / deviating_cases_not_written_family_cap): "
+                  "the verdict needs only some, and a tree that deviates everywhere is answered quickly.",
 }
 
 KFS = ["KF_C11_DlfIgnoreCase", "KF_C11_ToJsonDropsType"]
@@ -89,6 +90,8 @@ def binding_selftest(ctx, cases, v, sw):
     """corrupt an accepted trace (flip a decision, flip a round-trip result, drop the end event): TLC must reject each"""
     good = [k for k in cases if k not in v.violations and k not in v.known
             and any(e["ev"] == "decide" for e in cases[k]) and any(e["ev"] == "roundtrip" for e in cases[k]) and cases[k][-1]["ev"] == "end"]
+    if not good and v.violations:
+        return {"skipped": "no accepted case to corrupt (every candidate case was rejected)"}
     if not good:
         raise c.ToolError("binding self-test: no accepted case with decide and roundtrip events")
     base = cases[good[0]]
@@ -183,7 +186,7 @@ def check(ctx):
     info = drive(binp, ["--scenarios", scn, "--seed", str(ctx.seed), "--random", str(nrand), "--random-msgs", "10" if quick else "12",
                         "--random-eac", "30" if quick else "300", "--sample", "200" if quick else "600",
                         "--adlt", adlt, "--tmp", tmp, "--eac-max", "80" if quick else "1500",
-                        "--nchars", "3" if quick else "4", "--drift-cap", "0" if quick else "12",
+                        "--nchars", "3" if quick else "4", "--drift-cap", "12", "--family-cap", "150",
                         "--real-payload", "10" if quick else "30"], trace)
     st = info["stats"]
     for k in ("cases_binary_eac", "cases_binary_conv", "cases_binary_dlf"):
